@@ -786,3 +786,45 @@ pub fn fidelity(bin: &str, n: u64) -> (u64, Option<String>) {
     }
     (n, None)
 }
+
+/// drop faults and prefix steps of the after-traffic session while the signature persists
+pub fn minimise_c16(v: &Violation) -> Violation {
+    let fresh = v.scenario["fresh"].clone();
+    let mut best = match Scenario::from_json(&v.scenario["after_traffic"]) {
+        Some(s) => s,
+        None => return v.clone(),
+    };
+    let repeat = v.scenario["repeat"].clone();
+    let build = |s: &Scenario| json!({"family": "SA", "check": "C16", "fresh": fresh, "after_traffic": s.to_json(), "repeat": repeat});
+    let still = |s: &Scenario| -> Option<Violation> { replay_c16(&build(s)).violations.into_iter().find(|x| x.sig == v.sig) };
+    if still(&best).is_none() {
+        return v.clone();
+    }
+    let mut out = v.clone();
+    let mut i = 0;
+    while i < best.faults.len() {
+        let mut t = best.clone();
+        t.faults.remove(i);
+        if let Some(x) = still(&t) {
+            best = t;
+            out = x;
+        } else {
+            i += 1;
+        }
+    }
+    // the probed request is the last position+go(+isready) before quit: keep the tail, drop from the prefix
+    let protect_tail = if repeat.as_bool().unwrap_or(false) { 7 } else { 4 };
+    let mut i = best.steps.len().saturating_sub(protect_tail);
+    while i > 1 {
+        i -= 1;
+        let mut t = best.clone();
+        t.steps.remove(i);
+        if let Some(x) = still(&t) {
+            best = t;
+            out = x;
+        }
+    }
+    out.run = v.run;
+    out.scenario = build(&best);
+    out
+}
